@@ -151,12 +151,18 @@ INSERT INTO t VALUES (1, 2, 'x', 10, 'n1', 'm1', 0), (2, 3, 'y''z', 20, 'n2', 'm
   (-4, 5, 'x%', 40, 'null', '', 1), (5, 5, 'abc', 50, 'q', 'm5', NULL);
 CREATE TABLE u (a INTEGER, d TEXT);
 INSERT INTO u VALUES (1, 'one'), (3, 'three'), (7, 'seven');
+CREATE TABLE n (v INTEGER PRIMARY KEY, g INTEGER, s TEXT);
+INSERT INTO n VALUES (1, 1, 'a'), (2, 2, 'B'), (3, 3, 'c'), (4, 1, 'D'), (5, 2, 'e'), (6, 3, NULL), (7, 1, 'g'),
+  (8, 2, 'H'), (9, 3, 'i'), (10, 1, NULL), (11, 2, 'k'), (12, NULL, 'L');
+CREATE INDEX n_g ON n (g);
+CREATE TABLE k (id INTEGER PRIMARY KEY, w TEXT UNIQUE, c INTEGER DEFAULT 7);
+INSERT INTO k VALUES (1, 'x', 1), (2, 'y', 2), (3, 'z', 3);
 `
 
 func c16State(db *sql.DB) string {
 	var b strings.Builder
 
-	for _, tb := range []string{"t", "u"} {
+	for _, tb := range []string{"t", "u", "n", "k"} {
 		rows, err := db.Query("SELECT * FROM " + tb)
 		if err != nil {
 			b.WriteString("ERR;")
